@@ -565,3 +565,43 @@ Proof.
   destruct HF as (Ha & Hr & Hb).
   rewrite Rank64_exact by assumption. unfold spec_Rank. rewrite Hr, Hb. reflexivity.
 Qed.
+
+(** * the specification value is THE position with bit 1 and rank [i] (uniqueness), so the
+      theorems above say what the property says, not merely "equal to some list function" *)
+Lemma rank1_succ_set bs p : nth_error bs p = Some true -> rank1 bs (S p) = rank1 bs p + 1.
+Proof.
+  intros H. unfold rank1. rewrite (firstn_succ_nth p bs true H), count_true_app.
+  cbn [count_true Z.b2z]. lia.
+Qed.
+
+Lemma rank1_set_unique bs p p' :
+  nth_error bs p = Some true -> nth_error bs p' = Some true -> rank1 bs p = rank1 bs p' -> p = p'.
+Proof.
+  intros Hp Hp' E.
+  destruct (Nat.lt_trichotomy p p') as [Hlt|[Heq|Hgt]]; [exfalso|exact Heq|exfalso].
+  - pose proof (rank1_mono bs (S p) p' ltac:(lia)). rewrite rank1_succ_set in * by exact Hp. lia.
+  - pose proof (rank1_mono bs (S p') p ltac:(lia)). rewrite rank1_succ_set in * by exact Hp'. lia.
+Qed.
+
+Lemma bitz_nth_error bs a : 0 <= a -> bitz bs a = true -> nth_error bs (Z.to_nat a) = Some true.
+Proof.
+  intros Ha Hb. unfold bitz in Hb.
+  destruct (Nat.lt_ge_cases (Z.to_nat a) (length bs)) as [Hlt|Hge].
+  - rewrite (nth_error_nth_Some bs _ false Hlt). now rewrite Hb.
+  - rewrite nth_overflow in Hb by exact Hge. discriminate.
+Qed.
+
+Theorem spec_Select_unique ws i a : 0 <= a -> bitz (flat ws) a = true -> rank1z (flat ws) a = i ->
+  0 <= i < zlen (all_ones ws) /\ fst (spec_Select ws i) = a.
+Proof.
+  intros Ha Hb Hr. pose proof (bitz_nth_error _ _ Ha Hb) as Hn. unfold rank1z in Hr.
+  assert (Hi : 0 <= i < zlen (all_ones ws)).
+  { pose proof (rank1_succ_set _ _ Hn) as Hs. rewrite Hr in Hs.
+    rewrite zlen_all_ones. unfold rank1 in *.
+    pose proof (count_true_firstn_le (flat ws) (S (Z.to_nat a))).
+    pose proof (count_true_nonneg (firstn (Z.to_nat a) (flat ws))). lia. }
+  split; [exact Hi|].
+  destruct (spec_Select_fst ws i Hi) as (Ha0 & Hr0 & Hb0).
+  pose proof (bitz_nth_error _ _ (proj1 Ha0) Hb0) as Hn0. unfold rank1z in Hr0.
+  pose proof (rank1_set_unique _ _ _ Hn0 Hn ltac:(lia)). lia.
+Qed.
